@@ -108,6 +108,9 @@ META["rule"] += (
 META["rule"] += (
     " " + 'Added after the seventh round: a silent series is answered the same way whichever series it is; decimal quantile levels k/(T-1) on records of 126 .. 1001 samples; the p_value option of the climate network class.')
 
+META["rule"] += (
+    " " + 'Added after the eighth round: event coincidence analysis with only one of the two time axes given.')
+
 _SAMPLED = {"ES": 0, "ECA": 0}
 
 ES_SETTINGS = [(INF, 0.0), (1.0, 0.0), (2.0, 1.0)]
@@ -335,10 +338,24 @@ def check_eca(ctx, ES, x, y, ts, taumax, lag, cid, relations=False,
     opt = _eca_opt(ts, taumax, lag)
     tx, ty = _times(x, ts), _times(y, ts)
     case = {"x": x, "y": y, "ts": ts, "deltaT": taumax, "lag": lag}
+    kts = {"ts1": ts, "ts2": ts}
+    ro = ctx.rng("ecaaxes", cid)
+    if ts is not None and not relations and not exchange and \
+            ro.random() < 0.3:
+        # only one of the two time axes given: the other series is stamped
+        # with its sample numbers (the documented default of each axis)
+        if ro.random() < 0.5:
+            kts = {"ts1": ts}
+            ty = _times(y, None)
+        else:
+            kts = {"ts2": ts}
+            tx = _times(x, None)
+        opt += ":one-axis-given"
+        ctx.count("eca_one_time_axis_given")
     with warnings.catch_warnings():
         warnings.simplefilter("ignore")
         ok, out = ctx.call(ES.event_coincidence_analysis, x, y, taumax,
-                           ts1=ts, ts2=ts, lag=lag)
+                           lag=lag, **kts)
     ctx.evals()
     if not ok:
         if not tx or not ty:
